@@ -280,6 +280,42 @@ func (e *C18) Run(ctx *core.Ctx, idx int) {
 				}
 			}
 		}
+		// A reconcile whose node listing is refused cannot have searched for conflicts: whatever it
+		// publishes, it must not publish "valid" for that setting, and no setting may be valid while
+		// carrying an error text ("only valid settings influence pods").
+		if len(order) > 0 && order[0] == 0 && len(sd) > 0 {
+			victim := sd[ctx.Rand.Intn(len(sd))].Name
+			s.Fault = func(c *simapi.Call) simapi.FaultKind {
+				if c.Verb == "list" && c.Kind == simapi.KindNode {
+					return simapi.Reject
+				}
+				return simapi.NoFault
+			}
+			out := ctl.Reconcile("setting", "ns", victim, "fn")
+			s.Fault = nil
+			ctx.Count("C18.node-list-failures-judged")
+			if o := s.Peek(simapi.KindSetting, "ns", victim); o != nil && out.Panic == "" {
+				x := o.(*v1.ExtendedDaemonsetSetting)
+				if x.Status.Status == v1.ExtendedDaemonsetSettingStatusValid {
+					fail("C18.valid-without-conflict-search", map[string]string{"errorText": fmt.Sprint(x.Status.Error != "")})
+				}
+			}
+			// recovery: one more failure-free pass brings the documented statuses back
+			for _, i := range order {
+				ctl.Reconcile("setting", "ns", sd[i].Name, "fn")
+			}
+			for _, n := range nodes {
+				cnt := 0
+				for _, d := range sd {
+					if o := s.Peek(simapi.KindSetting, "ns", d.Name); o != nil && o.(*v1.ExtendedDaemonsetSetting).Status.Status == v1.ExtendedDaemonsetSettingStatusValid && match(d, n.Labels) {
+						cnt++
+					}
+				}
+				if cnt > 1 {
+					fail("C18.mutual-exclusion", map[string]string{"after": "node-list-failure-and-recovery"})
+				}
+			}
+		}
 		// Which setting does a replica-set sync attach to which node? Observed through the pods it creates.
 		if len(order) > 0 && order[0] == 0 || ns == 1 { // one order per population is enough for this part
 			e.podsPart(ctx, s, ctl, sd, st, desc, attrs)
